@@ -21,7 +21,7 @@ def setup(J):
         # a coarse logical clock (700 ms per reading): tasks straddle second boundaries, durations exceed a second
         add("g3", 2, 1, "cmd", clock_step_ms=700, id="C10-g3-i2-m1-cmd-clock700ms"); add("g7", 1, 2, "func", clock_step_ms=1300, id="C10-g7-i1-m2-func-clock1300ms")
         add("g5", 2, 2, "cmd"); add("g6", 1, 1, "cmd"); add("g6b", 2, 1, "cmd"); add("g14a", 1, 1, "cmd"); add("g14a", 2, 2, "func"); add("g8b", 2, 1, "cmd"); add("g14b", 1, 1, "cmd"); add("g14b", 1, 2, "func")
-        for sep, k in ((",", 2), (" ", 3)):
+        for sep, k in ((",", 2), (" ", 3), (",", 0)):   # k = 0: an EMPTY sub-stream (no member, so no Upstream entry)
             jobs.append(J.with_delay_fallback(J.wf("C10", "gjoin", k, 1, 2, "cmd", oracles=["nohang", "clean", "c10", "c18"], tier=tier, events_dep=False, extra=sep, id=f"C10-gjoin-k{k}-sep{ord(sep)}")))
         jobs.append(J.with_delay_fallback(J.wf("C10", "gjoin3", 2, 1, 2, "cmd", oracles=["nohang", "clean", "c10"], tier=tier, events_dep=False, extra=",", id="C10-gjoin3-k2")))
         # "each output file FINALIZED by a task is accompanied by <path>.audit.json" is a statement about
@@ -89,6 +89,18 @@ def setup(J):
                         fj["id"] = nj["id"] + f"-readfault{nth}"
                         fj["read_fault"] = {"suffix": ".audit.json", "nth": nth}
                         fj["oracles"] = ["nohang", "c10", "c04", "c11-roundtrip", "c11-unchanged"]
+                        fj["budget"] = J.budget(tier, 10, 120)
+                        jobs.append(fj)
+                if j.get("_prefix") and j["scen"]["graph"] == "g3":
+                    # environment deviation: a lagging file system - the n-th .. (n+c-1)-th look at the ancestor's
+                    # output (or its audit file) answers "no such file" although it is there
+                    for nth, cnt in ((1, 1), (1, 2), (2, 1), (2, 2), (3, 1)):
+                        fj = copy.deepcopy(nj)
+                        fj["id"] = nj["id"] + f"-statlag{nth}x{cnt}"
+                        fj["stat_fault"] = {"suffix": "", "match": "in0.txt.p", "nth": nth, "count": cnt}
+                        # (a look that misses the ancestor's output makes its task run again: legitimate under this
+                        # deviation, so the executed-task multiset is not judged; the lineage is)
+                        fj["oracles"] = ["nohang", "c10", "c11-roundtrip", "c11-unchanged"]
                         fj["budget"] = J.budget(tier, 10, 120)
                         jobs.append(fj)
                 if j.get("_full"):
